@@ -413,10 +413,11 @@ def test_symsql(seed):
             stores["real"], stores["sym"] = open_(sqlite3), open_(symsql)
             for step in range(40):
                 op = rnd.choice(["storeSession", "deleteSession", "deleteAll", "containsSession", "subDevices", "saveIdentity", "trusted", "storePreKey", "removePreKey", "containsPreKey",
-                                 "setAsSent", "maxPreKey", "unsent", "nullcmp", "storeSigned", "removeSigned", "storeSenderKey", "loadSenderRaw", "die", "regid"])
+                                 "setAsSent", "maxPreKey", "unsent", "nullcmp", "storeSigned", "removeSigned", "storeSenderKey", "loadSenderRaw", "die", "regid", "pragma"])
                 r, i, g = rnd.choice([11, 22, 33]), rnd.choice([5, 6, 7]), rnd.choice(["g1@g.us", "g2@g.us"])
                 sender = rnd.choice(["4915901", "77"])
                 blob = bytes([rnd.randrange(256) for _ in range(rnd.randrange(1, 9))])
+                jmode, sync = rnd.choice(["MEMORY", "DELETE", "OFF", "WAL", "TRUNCATE", "persist", "bogus"]), rnd.choice(["OFF", "1", "FULL"])
                 res = {}
                 for name in ("real", "sym"):
                     st = stores[name]
@@ -465,6 +466,11 @@ def test_symsql(seed):
                             c.execute("SELECT record FROM sender_keys WHERE group_id = ? and sender_id = ?", (g, sender))
                             x = c.fetchone()
                             out = bytes(x[0]) if x else None
+                        elif op == "pragma":
+                            conn = st.identityKeyStore.dbConn
+                            conn.commit()
+                            out = (jmode, conn.execute("PRAGMA journal_mode = %s" % jmode).fetchone(), conn.execute("PRAGMA journal_mode").fetchone(),
+                                   conn.execute("PRAGMA synchronous = %s" % sync).fetchone(), conn.execute("PRAGMA synchronous").fetchone())
                         elif op == "regid":
                             out = (st.getLocalRegistrationId(), [bytes(x) for x in st.identityKeyStore.dbConn.cursor().execute("SELECT public_key, private_key FROM identities WHERE recipient_id = -1").fetchone()])
                         elif op == "die":
